@@ -21,6 +21,7 @@ def fakeBase : Int := 1000000000000000
 
 structure DSt where
   fake : Bool
+  swapNeg : Bool := false           -- header `neg=1`: the tree under test has the F481 repair (thresholds swapped for a negative average)
   sat : Bool := true                -- header `sat=0`: the tree under test lacks the F195 repair (f29ac4e4e): wrapping arithmetic
   env : Env := { pred := fun _ _ => false, clock := fun _ => 0 }
   w : World Float := {}
@@ -44,12 +45,14 @@ structure DSt where
 
 def init (ts : List String) : Option DSt :=
   match ts with
-  | ["ptc", "clock=fake"] => some { fake := true }
-  | ["ptc", "clock=real"] => some { fake := false }
-  | ["ptc", "clock=fake", "sat=1"] => some { fake := true }
-  | ["ptc", "clock=real", "sat=1"] => some { fake := false }
-  | ["ptc", "clock=fake", "sat=0"] => some { fake := true, sat := false }
-  | ["ptc", "clock=real", "sat=0"] => some { fake := false, sat := false }
+  | "ptc" :: clk :: opts =>
+    let fake? := if clk == "clock=fake" then some true else if clk == "clock=real" then some false else none
+    match fake? with
+    | none => none
+    | some fake =>
+      if opts.all (fun o => o == "sat=0" || o == "sat=1" || o == "neg=0" || o == "neg=1") then
+        some { fake := fake, sat := !opts.contains "sat=0", swapNeg := opts.contains "neg=1" }
+      else none
   | _ => none
 
 def lookup {β} (xs : List (String × β)) (n : String) : Option β :=
@@ -338,7 +341,7 @@ def step (d : DSt) (ts : List String) : DSt × String :=
     else if op == "cost" then
       match parseFloatBits? a with
       | some c =>
-        if d.w.cb.isSome then (touch { d with w := reportCost d.w c }, "ok") else (d, "none")
+        if d.w.cb.isSome then (touch { d with w := reportCostWith d.swapNeg d.w c }, "ok") else (d, "none")
       | none => (d, "bad-op")
     else if op == "solve" then
       match parseFloatBits? a with
@@ -419,6 +422,9 @@ def step (d : DSt) (ts : List String) : DSt × String :=
         (touch { d0 with w := { d0.w with st := r3.2 } },
           s!"polled=0 period={floatBits itv} vals={b01 r1.1}{b01 r2.1}{b01 r3.1} inv={id}:3")
     | _, _ => (d, "bad-op")
+  | ["cbclear"] =>
+    -- pdef->setIntermediateSolutionCallback({}): the condition stays alive, nothing feeds it any more
+    (touch { d with w := { d.w with cb := none } }, "ok")
   | ["solnclear"] =>
     let st := clearSolns d.w.st
     (touch { d with w := { d.w with st := st } }, s!"exact={b01 (hasExact st.solns)}")
